@@ -32,7 +32,7 @@ THEOREMS = [
     'CC.C18_real_counterexample', 'CC.C18_rounds_up_to_one_text', 'CC.C18_complex_suppression_counterexample',
     'CC.C18_zero_never_infinity', 'CC.C18_exponent_decade_partial', 'CC.C18_accuracy_positional',
     'CC.C18_exponent_decade_small', 'CC.C18_exponent_decade_domain', 'CC.C18_accuracy_domain',
-    'CC.C18_mantissa_range_domain', 'CC.C18_saturate_domain', 'CC.C18_tables_ends', 'CC.C18_sine_shift', 'CC.C18_saturation_counterexample', 'CC.C18_render', 'CC.C18_real_domain', 'CC.C18_complex_parts',
+    'CC.C18_mantissa_range_domain', 'CC.C18_saturate_domain', 'CC.C18_tables_ends', 'CC.C18_sine_shift', 'CC.C18_saturation_independent_of_precision', 'CC.C18_render', 'CC.C18_real_domain', 'CC.C18_complex_parts',
 ]
 OPEN_STATEMENTS = [
     'CC.C18_exponent_decade_statement and CC.C18_real_partial_statement for |v| >= 1e16 only (outside the property domain '
@@ -109,7 +109,7 @@ def check_repr_assumption(out, v: float):
 def canon_of(case, failures, extra=None):
     tname = case.get('table')
     c = dict(op=case['kind'], symptom='+'.join(sorted(set(f.split(':')[-1] for f in failures))),
-             precision_ge_4=case['p'] >= 4,
+             precision_ge_4=case['p'] >= 4, precision_ge_12=case['p'] >= 12,
              table_max_negative=bool(case.get('use_prefix') and tname and max(TABLES[tname]) < 0)
                                 or case.get('fn') in ('print_capacitance', 'print_inductance'))
     c.update(extra or {})
@@ -163,6 +163,18 @@ def report(out, case, fails, extra, what, **kw):
         if g:
             out.spec_fail(canon_of(case, g, extra), what + ', '.join(g), case, case=case, **kw)
 
+_NUM = None
+def extra_decimal_only(s_impl: str, s_model: str) -> bool:
+    """what is left of the float product at 12+ digits after /repo 8387fb8: when mantissa*10**(e-e3) falls just below a
+    power of ten (0.9999999999999999 for 1.0), the number of decimals is still fixed from that unrounded value, so the text
+    carries one more (zero) decimal than the exact model's — the same number, one digit longer"""
+    import re
+    global _NUM
+    _NUM = _NUM or re.compile(r'\d+\.\d+|\d+')
+    a, b = _NUM.findall(s_impl), _NUM.findall(s_model)
+    if len(a) != len(b) or _NUM.sub('#', s_impl) != _NUM.sub('#', s_model): return False
+    return all(x == y or ('.' in y and x == y + '0') for x, y in zip(a, b)) and a != b
+
 def run_sf(ctx, out, case):
     """str(ScientificFloat(v, unit, p, use_prefix, table))"""
     from CircuitCalculator.Utils import ScientificFloat
@@ -189,6 +201,8 @@ def run_sf(ctx, out, case):
         if m['s'] != s_impl:
             if tie:
                 out.skip('tie_margin_disagree')
+            elif p >= 12 and extra_decimal_only(s_impl, m['s']):
+                out.skip('high_precision_extra_decimal')
             else:
                 out.disagree('fmt_sf', case, s_impl, m['s'])
         res = drv.call('fmt_spec_real', v=core.q(v), precision=p, max_exp=max_exp, unit=unit, s=s_impl)
@@ -239,6 +253,7 @@ def run_sc(ctx, out, case):
     if tie: out.count('tie_margin_hit')
     if m['s'] != s_impl:
         if tie: out.skip('tie_margin_disagree')
+        elif p >= 12 and extra_decimal_only(s_impl, m['s']): out.skip('high_precision_extra_decimal')
         else: out.disagree('fmt_sc', case, s_impl, m['s'])
     if polar:
         if a == 0: return
@@ -342,6 +357,7 @@ def run_display(ctx, out, case):
         if kind == 'complex' and case['polar']:
             tie = True if tie else _angle_tie(impl_angle(z, case['deg']), case['deg'])
         if tie: out.skip('tie_margin_disagree')
+        elif p >= 12 and extra_decimal_only(s_impl, m['s']): out.skip('high_precision_extra_decimal')
         else: out.disagree('fmt_display', case, s_impl, m['s'])
     # ---- oracle
     lo, hi = helper_range(drv, fn)
@@ -540,21 +556,25 @@ def carry_values():
 def random_binary64(rng, lo=-15.0, hi=15.0):
     return rng.choice([-1.0, 1.0]) * float(10 ** rng.uniform(lo, hi))
 
+def pick_precision(rng):
+    """every precision p ≥ 1 the mantissa arithmetic can carry in binary64: mostly 1..6, one in five 7..15"""
+    return rng.randint(1, 6) if rng.random() < 0.8 else rng.randint(7, 15)
+
 def sf_case(rng, v, p=None, use=None, table=None):
-    p = p if p is not None else rng.randint(1, 6)
+    p = p if p is not None else pick_precision(rng)
     use = use if use is not None else rng.random() < 0.6
     table = table if table is not None else (rng.choice(TABLE_NAMES + [None]) if use else None)
     return dict(kind='sf', v=float(v), p=p, unit=rng.choice(UNITS), use_prefix=use, table=table)
 
 def sc_case(rng, re, im):
     use = rng.random() < 0.6
-    return dict(kind='sc', re=float(re), im=float(im), p=rng.randint(1, 6), unit=rng.choice(UNITS), use_prefix=use,
+    return dict(kind='sc', re=float(re), im=float(im), p=pick_precision(rng), unit=rng.choice(UNITS), use_prefix=use,
                 table=rng.choice(TABLE_NAMES + [None]) if use else None, compact=rng.random() < 0.5,
                 polar=rng.random() < 0.4, deg=rng.random() < 0.5)
 
 def display_case(rng, fn, re, im):
     kind, fixed = HELPERS[fn]
-    c = dict(kind='display', fn=fn, re=float(re), im=float(im), p=rng.randint(1, 6))
+    c = dict(kind='display', fn=fn, re=float(re), im=float(im), p=pick_precision(rng))
     if fixed is None: c['unit'] = rng.choice(['V', 'A', 'W'])
     if kind == 'complex': c.update(polar=rng.random() < 0.5, deg=rng.random() < 0.5)
     if kind == 'sinus':
@@ -600,6 +620,13 @@ CORPUS = [
     dict(kind='sc', re=3.0, im=1e-9, p=3, unit='V', use_prefix=False, table=None, compact=False, polar=True, deg=False),
     dict(kind='display', fn='print_sinosoidal', re=3.0, im=4.0, p=3, unit='V', w=100.0, sin=True, deg=False, hertz=True),
     dict(kind='display', fn='print_sinosoidal', re=3.0, im=4.0, p=3, unit='V', w=100.0, sin=False, deg=True, hertz=False),
+    # former finding (8387fb8): wrong digits at 12+ digits (float product mantissa*10**(e-e3), then int() and a separately rounded fraction)
+    dict(kind='sf', v=8.0, p=12, unit='V', use_prefix=False, table=None),
+    dict(kind='display', fn='print_real', re=2000.0, im=0.0, p=12, unit='V'),
+    dict(kind='sf', v=470.0, p=14, unit='V', use_prefix=False, table=None),
+    # former finding (edb6a6b): the end of the range does not depend on the precision
+    dict(kind='display', fn='print_real', re=50e3, im=0.0, p=1, unit='V'),
+    dict(kind='display', fn='print_real', re=1.2e8, im=0.0, p=6, unit='V'),
     # former finding (7cf4bc4): at w = 0 the label is the constant Re X with its sign
     dict(kind='display', fn='print_sinosoidal', re=-10.0, im=0.0, p=3, unit='V', w=0.0, sin=False, deg=False, hertz=False),
     dict(kind='display', fn='print_sinosoidal', re=3.0, im=4.0, p=3, unit='V', w=0.0, sin=False, deg=False, hertz=False),
